@@ -13,7 +13,6 @@ use cipher::{
     array::ArraySize,
     consts::U16,
     crypto_common::BlockSizes,
-    typenum::Unsigned,
 };
 use core::fmt;
 use core::marker::PhantomData;
